@@ -213,7 +213,8 @@ def build(records, arch="x86_64", first_time=None, last_time=None, period=100000
         ids = b""
     else:
         # two attributes: cpu-clock (ids [MAIN_ID]) and a software dummy event (config 9, ids [TRACKING_ID]); the id arrays precede the attributes
-        sty, scfg, sname = {"dummy": (1, 9, "dummy:HG"), "instructions": (0, 1, "instructions"), "cycles": (0, 0, "cpu_atom/cycles/"), "page-faults": (1, 2, "page-faults")}[_layout["second"]]
+        sty, scfg, sname = {"dummy": (1, 9, "dummy:HG"), "instructions": (0, 1, "instructions"), "cycles": (0, 0, "cpu_atom/cycles/"), "page-faults": (1, 2, "page-faults"),
+                            "sched_switch": (2, 316, "sched:sched_switch")}[_layout["second"]]
         dummy = struct.pack("<II", sty, 112) + struct.pack("<Q", scfg) + attr[16:]
         ids = struct.pack("<QQ", MAIN_ID, TRACKING_ID)
         attr_entry = attr + struct.pack("<QQ", header_size, 8) + dummy + struct.pack("<QQ", header_size + 8, 8)
